@@ -1,5 +1,6 @@
 import Lean.Data.Json
 import Sismic.Model.World
+import Sismic.Model.Edit
 /-!
 # Sismic.Json — the line protocol between the Python harness and the model driver
 (decoding of cases, encoding of observations; no logic)
@@ -217,5 +218,31 @@ def ofSlot (s : Slot) : Json :=
 def ofWorld (w : World) : Json :=
   Json.mkObj [("slots", .arr (w.slots.map ofSlot)),
               ("callbacks", .arr (w.callbacks.map (fun l => Json.arr (l.map ofEvent).toArray)))]
+
+def ofKindS : Kind → Json
+  | .basic => .str "basic" | .compound => .str "compound" | .orthogonal => .str "orthogonal"
+  | .shallow => .str "shallow" | .deep => .str "deep" | .final => .str "final"
+
+def ofOptCode : Option Code → Json
+  | some c => .str c.src
+  | none => .null
+def ofCodes (l : List Code) : Json := .arr (l.map (fun c => Json.str c.src)).toArray
+
+/-- the public view of a statechart (what the harness reads through the public API) -/
+def ofChartSnap (c : Chart) : Json :=
+  let sts := isort (fun (a b : StateDef) => decide (a.name ≤ b.name)) c.states
+  Json.mkObj [
+    ("root", ofOptStr c.root),
+    ("valid", .bool c.validate),
+    ("states", .arr (sts.map (fun s => Json.mkObj [
+      ("name", .str s.name), ("kind", ofKindS s.kind), ("initial", ofOptStr s.initial),
+      ("memory", ofOptStr s.memory), ("parent", ofOptStr (c.parentFor s.name)),
+      ("children", ofStrs (c.childrenFor s.name)),
+      ("on_entry", ofOptCode s.onEntry), ("on_exit", ofOptCode s.onExit),
+      ("pre", ofCodes s.pre), ("post", ofCodes s.post), ("inv", ofCodes s.inv)])).toArray),
+    ("transitions", .arr (c.transitions.map (fun t => Json.mkObj [
+      ("source", .str t.source), ("target", ofOptStr t.target), ("event", ofOptStr t.event),
+      ("guard", ofOptCode t.guard), ("action", ofOptCode t.action), ("priority", ofInt t.priority),
+      ("pre", ofCodes t.pre), ("post", ofCodes t.post), ("inv", ofCodes t.inv)])).toArray)]
 
 end Sismic.J
